@@ -25,6 +25,10 @@ def _h_charge_tail(t: str) -> bool:
     pre: t[0] in "+-"
     post: _
     """
+    return _charge_tail_ok(t)
+
+
+def _charge_tail_ok(t):
     try:
         parts = _formula_to_parts("Fe" + t, PREFIXES, SUFFIXES)
         stoich, chg = parts[0], parts[1]
@@ -38,6 +42,17 @@ def _h_charge_tail(t: str) -> bool:
     # not a charge token of the grammar: acceptable only if a sign character is left in the stoichiometric part, where no token of
     # the grammar can start with it (L1), so the parse fails
     return ("+" in stoich) or ("-" in stoich)
+
+
+def _h_charge_tail_junk(t: str) -> bool:
+    """
+    pre: 1 <= len(t) <= 3
+    pre: all(c in "+-1X)" for c in t)
+    pre: t[0] in "+-"
+    post: _
+    """
+    # the same contract over an alphabet with a non-element capital and a closing bracket: text after the charge digits is never dropped
+    return _charge_tail_ok(t)
 
 
 def _parts_ok(core, prefix, suffix, q):
